@@ -208,10 +208,10 @@ namespace sim
         }
         if (size == 0)
             size = 1;
-        if (size > (32u << 20))
+        if (size > (2u << 20))
         {
-            // too large for the region: behave like an exhausted upstream (not a fault, not a finding)
-            set_pending("HARNESS:simheap_request_too_large");
+            // an upstream that says no to very large requests: a legitimate failure, not an injected fault
+            stats_too_large_++;
             return nullptr;
         }
         auto off = place(size, align, GUARD);
